@@ -5,7 +5,7 @@ import os
 VERIF = os.path.dirname(os.path.dirname(os.path.abspath(__file__)))
 
 HOOK_COMMITS = ["b9d4bd0", "034d117", "c156e58"]
-FIX_COMMITS = ["d307ba7", "1245628", "e2789dc", "37d0178", "8d97c84", "106b808", "4ace02c", "398b1f9", "8e20502", "758bf79", "bcb9d1c"]
+FIX_COMMITS = ["d307ba7", "1245628", "e2789dc", "37d0178", "8d97c84", "106b808", "4ace02c", "398b1f9", "8e20502", "758bf79", "bcb9d1c", "736daa9"]
 
 TRUST = ("TLC 1.8 and the TLA+ reference modules (cross-validated against gcc 12 / gfortran / git where an "
          "external tool exists); the Python harness only materialises TLC-generated cases, reformats traces and "
@@ -90,6 +90,17 @@ CHECKS["C17"] = dict(
          "gfortran -cpp -E validates the expected selection on a sample. No product-automaton fixpoint was built for the "
          "Fortran cleaner (unlike C05), so this is exhaustive only up to the line bound.",
     design="3/C17")
+
+CHECKS["C07"] = dict(
+    technique="TLA+ definitions of the metrics with exact rationals (Metrics.tla); TLC checks the algebraic laws on "
+              "every table and prints each table with its exact metrics; tables replayed into codebasin.report",
+    text="TLC checks symmetry, zero diagonal, ranges, invariance under every platform renaming and under scaling, and "
+         "NaN-exactly-when-undefined for the reference definitions on every table of the profile (platform sets absent or "
+         "with counts incl. 0); every table is replayed into report.coverage/average_coverage/distance/divergence under "
+         "several namings, key orders and scale factors up to 1e12 for every `platforms` subset and compared with the "
+         "exact rational (rel. tol. 1e-9); printed summary metrics/rows and the clustering distance matrix are parsed "
+         "back. Floating-point rounding itself is outside the technique.",
+    design="3/C07")
 
 PENDING_REASON = "check not built yet (build in progress; see DESIGN.md section 7)"
 
